@@ -284,6 +284,19 @@ def _check_bands(cfg, before, after, inv, bad, stats):
             stats["ambiguous"] = stats.get("ambiguous", 0) + int(skip.sum())
         expf = np.where(touched, exp, b0.astype(np.float64)).astype(np.float32)
         wrong = _ne(expf, b1) & ~skip
+        # inside those neighbourhoods two readings of "the same median" exist: (A) above - the plain median of the
+        # non-NaN band values, written to every pixel; (B) the validity-aware one of the disparity median - invalid
+        # pixels are ignored by their neighbours and keep their own value.  A value that fits neither is wrong under
+        # both (e.g. a finite bound of an invalid pixel turned into NaN)
+        expb, touchedb = RF.median_fast(RF.mask_invalid(b0, inv | np.isnan(b0)), size)
+        expbf = np.where(touchedb & ~inv, expb, b0.astype(np.float64)).astype(np.float32)
+        neither = skip & _ne(expf, b1) & _ne(expbf, b1)
+        if neither.any():
+            r, c = np.argwhere(neither)[0]
+            bad("bands-value", "invalid pixel with a finite bound in the window: neither the plain nor the "
+                "validity-aware median", f"band {name} at ({r},{c}) (validity invalid={bool(inv[r, c])}): window "
+                f"{_window(b0, r, c, rad).tolist()} became {float(b1[r, c])!r}; plain median {float(expf[r, c])!r}, "
+                f"validity-aware median {float(expbf[r, c])!r} ({int(neither.sum())} pixels)")
         changed += int(_ne(b0, b1).sum())
         if wrong.any():
             r, c = np.argwhere(wrong)[0]
